@@ -1994,3 +1994,161 @@ func ruleDecodedValueNotOverwritten(c *Ctx, rule string, pkgs ...string) {
 		c.unresolvedRoot("locals filled by decoder calls")
 	}
 }
+
+// ruleReadCountChecked: C01.l. io.Reader.Read may return fewer bytes than the
+// buffer holds (a literal arriving in several TCP segments, or straddling the
+// bufio buffer). Outside the Read wrappers themselves, a direct Read whose
+// byte count is thrown away is a short read waiting to happen: the rest of
+// the literal stays on the connection and is parsed as syntax. (io.ReadFull,
+// io.Copy, io.ReadAll loop.)
+func ruleReadCountChecked(c *Ctx, rule string, pkgs ...string) {
+	p := c.P
+	n, bad := 0, 0
+	for _, fn := range p.SrcFuncs(pkgs...) {
+		if fn.Name() == "Read" || fn.Name() == "WriteTo" || fn.Name() == "ReadFrom" {
+			continue
+		}
+		allInstrs(fn, func(i ssa.Instruction) {
+			call, ok := i.(*ssa.Call)
+			if !ok {
+				return
+			}
+			isRead := false
+			if call.Call.IsInvoke() && call.Call.Method.Name() == "Read" {
+				isRead = true
+			} else if o := calleeObj(call); o != nil && o.Name() == "Read" {
+				if sig, ok := o.Type().(*types.Signature); ok && sig.Params().Len() == 1 && sig.Results().Len() == 2 {
+					isRead = true
+				}
+			}
+			if !isRead {
+				return
+			}
+			n++
+			used := false
+			for _, ref := range *call.Referrers() {
+				if ex, ok := ref.(*ssa.Extract); ok && ex.Index == 0 && len(*ex.Referrers()) > 0 {
+					used = true
+				}
+			}
+			if !used {
+				bad++
+				c.fail(rule, fmt.Sprintf("%s: Read with the count discarded#%d", fnKey(fn), bad), call.Pos(),
+					"a single Read is issued and its byte count is ignored: when the data arrives in more than one piece the buffer is only partly filled (NUL-padded value) and the unread remainder of the literal is parsed as protocol syntax")
+			}
+		})
+	}
+	if bad == 0 {
+		c.ok(rule, "no direct Read discards its count", token.NoPos, fmt.Sprintf("%d direct Read calls outside Read wrappers, all use the returned count", n))
+	}
+}
+
+// ruleTrailingLiteralSizes: C04.l. The helper that recognises a trailing
+// non-synchronising literal header on a discarded line accepts every size the
+// literal parser accepts — zero included: `{0+}` is a literal, and what
+// follows it is the rest of the same command, not a new one.
+func ruleTrailingLiteralSizes(c *Ctx, rule string) {
+	p := c.P
+	dl := p.Func("internal/imapwire", "Decoder", "DiscardLine")
+	if dl == nil {
+		c.unresolvedRoot("(*Decoder).DiscardLine")
+		return
+	}
+	var helper *ssa.Function
+	for _, h := range helperClosure(dl, 1) {
+		if h != dl && h.Signature.Results().Len() == 2 {
+			if b, ok := h.Signature.Results().At(0).Type().Underlying().(*types.Basic); ok && b.Kind() == types.Int64 {
+				helper = h
+			}
+		}
+	}
+	if helper == nil {
+		c.unresolvedRoot("the trailing-literal recogniser called by DiscardLine")
+		return
+	}
+	// the parsed size: result #0 of strconv.ParseInt/ParseUint
+	isSize := func(v ssa.Value) bool {
+		for k := 0; k < 4; k++ {
+			switch x := v.(type) {
+			case *ssa.Extract:
+				if call, ok := x.Tuple.(*ssa.Call); ok && x.Index == 0 {
+					if o := calleeObj(call); o != nil && o.Pkg() != nil && o.Pkg().Path() == "strconv" {
+						return true
+					}
+				}
+				return false
+			case *ssa.Convert:
+				v = x.X
+			case *ssa.UnOp:
+				if al, ok := x.X.(*ssa.Alloc); ok {
+					for _, ref := range *al.Referrers() {
+						if st, ok := ref.(*ssa.Store); ok && st.Addr == ssa.Value(al) {
+							v = st.Val
+						}
+					}
+				} else {
+					return false
+				}
+			default:
+				return false
+			}
+		}
+		return false
+	}
+	rejects := func(b *ssa.BasicBlock) bool {
+		for _, i := range b.Instrs {
+			if r, ok := i.(*ssa.Return); ok && len(r.Results) == 2 {
+				if k, ok := unspill(r.Results[1]).(*ssa.Const); ok && k.Value != nil && k.Value.String() == "false" {
+					return true
+				}
+			}
+		}
+		return false
+	}
+	n := 0
+	for _, b := range helper.Blocks {
+		if len(b.Instrs) == 0 {
+			continue
+		}
+		ifi, ok := b.Instrs[len(b.Instrs)-1].(*ssa.If)
+		if !ok {
+			continue
+		}
+		for _, a := range atomsOf(ifi.Cond, true) {
+			if a.Const == nil || !isSize(a.V) {
+				continue
+			}
+			k, ok := constInt(a.Const)
+			if !ok {
+				continue
+			}
+			n++
+			// does size == 0 take the true edge?
+			var t bool
+			switch a.Op {
+			case token.LSS:
+				t = 0 < k
+			case token.LEQ:
+				t = 0 <= k
+			case token.GTR:
+				t = 0 > k
+			case token.GEQ:
+				t = 0 >= k
+			case token.EQL:
+				t = 0 == k
+			case token.NEQ:
+				t = 0 != k
+			}
+			target := b.Succs[1]
+			if t {
+				target = b.Succs[0]
+			}
+			c.check(!rejects(target), rule, fmt.Sprintf("%s: size test#%d", fnKey(helper), n), condPos(ifi),
+				"a header announcing zero octets is recognised as a literal",
+				"a trailing `{0+}` is not recognised as a literal header (the size test rejects 0): after a refused command ending in an empty non-synchronising literal, the rest of that command's line is read as a new command and executed")
+		}
+	}
+	if n == 0 {
+		c.unresolvedRoot("size test in " + fnKey(helper))
+	}
+}
